@@ -55,6 +55,50 @@ EXEMPT = ("call stack overflow", "maximum value stack size exceeded", "stack ove
 def canon(ans):
     return (mini_common.real_outcome(ans), ans["stdout"])
 
+PROBE_SIZES = ["2048", "3568", "4800", "5280", "6000", "7120", "9000", "12000", "16000", "20000", "24048", "30000", "48000"]
+
+
+def probe_programs(seed):
+    """a generator resumed at every level of a 400-deep recursion, with frames of several shapes: the value stack grows
+    several times while suspended frames are copied back at every possible distance from the growth threshold.
+    Expected output is known in closed form (sum of 0..399)."""
+    out = []
+    for k in (0, 2, 5, 9):
+        u = f"{seed}k{k}"
+        pads = "".join(f"  p{j} := n + {j}\n" for j in range(k))
+        use = "".join(f" + p{j} - n - {j}" for j in range(k))
+        src = (f"def *nat{u}(): Int\n  i := 0\n  while i < 100000\n    yield i\n    i += 1\n  end\n  0\nend\n"
+               f"def dive{u}(n: Int, g: Generator[Int, never]): Int\n  return 0 if n == 0\n{pads}"
+               f"  t := [n + 7, n + 8, n + 9]\n  x := try g.next\n  x + t.length - 3{use} + dive{u}(n - 1, g)\nend\n"
+               f"println(dive{u}(400, nat{u}()).inspect)\n")
+        out.append((src, "79800\n"))
+    return out
+
+
+def run_probes(ctx):
+    progs = probe_programs(ctx.seed)
+    ok, reported = True, 0
+    for size in [None] + PROBE_SIZES:
+        cfg = {} if size is None else {"ELK_INIT_VALUE_STACK_SIZE": size}
+        res = vlib.run_programs([{"id": f"pb{i}", "src": src, "timeout_ms": 8000} for i, (src, _) in enumerate(progs)], extra_env=cfg)
+        for (src, want), a in zip(progs, res):
+            ctx.case(("probe", src, size), sample={"config": cfg, "outcome": a["outcome"], "stdout": a["stdout"][:40]})
+            ctx.stat("probe:" + a["outcome"])
+            if a["outcome"] == "value" and a["stdout"] == want:
+                continue
+            if reported >= 2:
+                ok = False
+                continue
+            reported += 1
+            if ctx.violation("config-dependent", {"program": src, "config": cfg},
+                             f"generator resumed at every depth of a 400-deep recursion: under {cfg or 'the default sizes'} the run "
+                             f"gives {a['outcome']} {a['stdout'][:60]!r} {(a.get('panic') or '')[:100]}, expected {want!r}"):
+                ok = False
+            else:
+                reported -= 1
+    ctx.obligation(f"suspended frames restored at every distance from the growth threshold: {len(progs)} programs x "
+                   f"{len(PROBE_SIZES) + 1} initial value-stack sizes print the closed-form result", ok, "search")
+
 
 def run(ctx):
     ctx.rule = ("closure programs with recursion up to depth 60 (type-directed MiniElk), each run under the default and "
@@ -71,9 +115,17 @@ def run(ctx):
         mach = None
     if mach and not ctx.replay:
         mach.run_machine(ctx)     # real growValueStack driven through verif wrappers vs the Lean machine
+    if not ctx.replay:
+        run_probes(ctx)
     configs = CONFIGS_QUICK + ([] if ctx.quick else CONFIGS_MORE)
     if ctx.replay:
         inp = json.load(open(ctx.replay))["input"]
+        if "sexpr" not in inp and "program" in inp:
+            a = vlib.run_programs([{"id": "r", "src": inp["program"], "timeout_ms": 8000}], extra_env=inp.get("config") or {})[0]
+            print("replayed probe:", a["outcome"], repr(a["stdout"][:60]), (a.get("panic") or "")[:100])
+            if not (a["outcome"] == "value" and a["stdout"] == "79800\n"):
+                ctx.violation("config-dependent", inp, f"replayed probe gives {a['outcome']} {a['stdout'][:60]!r}, expected '79800'")
+            return
         progs = [inp["sexpr"]]
         if inp.get("config"):
             configs = [inp["config"]]
